@@ -417,6 +417,7 @@ class Info:
         self.text = text
         t = ans.split(" ")
         self.ok = t[0] == "ok"
+        self.hsl, self.packed, self.keys, self.wire = None, None, {}, ""
         if self.ok:
             self.hsl = unhex(t[1]).decode()
             self.packed = int(t[2])
@@ -590,6 +591,12 @@ def c17(res, tier, seed, lib):
     import re as _re
     table = _re.findall(r'named_color\("([a-z]+)"', open("/repo/src/named.rs").read())
     tinfo = infos(table)
+    # every name of the table is a colour pastel reads (what `list` prints must parse to a named colour)
+    for n, i in zip(table, tinfo):
+        res.case("table name " + n)
+        res.check(i.ok, "every-listed-name-parses", "parse_color", n, "the name %r of NAMED_COLORS is not read as a colour" % n)
+    all_names = list(table)
+    table, tinfo = [n for n, i in zip(table, tinfo) if i.ok], [i for i in tinfo if i.ok]
     # defaults: `list` sorts by hue; `sort-by` with colours on stdin and no key sorts by hue
     rc1, out1, _ = run_cli(["list"])
     rc2, out2, _ = run_cli(["list", "--sort", "hue"])
@@ -610,8 +617,13 @@ def c17(res, tier, seed, lib):
         inp = "list --sort " + key
         res.case(inp)
         res.check(rc == 0, "exit-0", "cli:list", inp, "rc=%s" % rc)
-        res.check(all(g in table for g in got), "list-prints-only-names", "cli:list", inp, str([g for g in got if g not in table][:5]))
+        res.check(all(g in all_names for g in got), "list-prints-only-names", "cli:list", inp, str([g for g in got if g not in all_names][:5]))
+        got = [g for g in got if g in table]
         by_name = dict(zip(table, tinfo))
+        for g in got:
+            if g in by_name:
+                res.check(by_name[g].ok, "every-listed-name-parses", "parse_color", g, "`pastel list` prints %r, which pastel does not read as a colour" % g)
+        got = [g for g in got if g not in by_name or by_name[g].ok]
         packed_out = [by_name[g].packed for g in got if g in by_name]
         res.check(set(packed_out) == {i.packed for i in tinfo}, "list-covers-every-named-rgb", "cli:list", inp, "missing %d" % len({i.packed for i in tinfo} - set(packed_out)))
         if key != "random":
@@ -727,6 +739,36 @@ def c18(res, tier, seed, lib):
         res.case("name " + t, True)
         parts = nr.split(" ")
         res.check(g in parts[2].split(","), "name-within-0.001-of-minimum", "cli:format-name", t, "got %s, nearest %s" % (g, parts[2]))
+    # Directed search. Where the library's CIEDE2000 differs from the independent transcription by more than the
+    # 0.001 C11 allows (the harness reports it per colour), "within 0.001 of the minimum" is no longer guaranteed
+    # nearby: look densely around those colours - and, when they are near-grays, along the whole gray axis - for
+    # a colour that is given a wrong name. Only a wrong name counts; the metric difference itself is C11's.
+    def risk_of(nr):
+        t = nr.split(" ")
+        return int(t[4]) if len(t) > 4 and t[4].isdigit() else 0
+    suspects = sorted([(risk_of(nr), t) for t, nr in list(zip(texts, near)) + list(zip(lattice, lnear)) if risk_of(nr) > 0], reverse=True)
+    suspects = [t for (_, t) in suspects]
+    if suspects:
+        res.tag("directed-search:metric-differs-from-independent-formula", len(suspects))
+        extra = []
+        drnd = random.Random(seed + 5)
+        for t in suspects[: (30 if tier != "thorough" else 300)]:
+            m3 = re.match(r"rgb\((\d+),(\d+),(\d+)\)", t)
+            if not m3:
+                continue
+            r0, g0, b0 = (int(x) for x in m3.groups())
+            for _ in range(60):
+                extra.append("rgb(%d,%d,%d)" % tuple(min(255, max(0, v + drnd.randrange(-8, 9))) for v in (r0, g0, b0)))
+            if max(r0, g0, b0) - min(r0, g0, b0) <= 3:
+                for k in range(256):
+                    extra.append("rgb(%d,%d,%d)" % tuple(min(255, max(0, k + drnd.randrange(-2, 3))) for _ in range(3)))
+        extra = list(dict.fromkeys(extra))[:12000]
+        rc, out, err = run_cli(["format", "name"], stdin=("\n".join(extra) + "\n").encode(), timeout=600)
+        enames = out.decode().split("\n")[:-1]
+        res.check(rc == 0 and len(enames) == len(extra), "exit-0", "cli:format-name", "directed search on stdin", "rc=%s lines=%d of %d" % (rc, len(enames), len(extra)))
+        for t, g, nr in zip(extra, enames, harness_query(["nearest " + hexs(t) for t in extra])):
+            res.case("name " + t, True)
+            res.check(g in nr.split(" ")[2].split(","), "name-within-0.001-of-minimum", "cli:format-name", t, "got %s, nearest %s" % (g, nr.split(" ")[2]))
     outs = model_batch(ops)
     for t, g, mo, op in zip(texts, got, outs, ops):
         res.model_op()
@@ -1313,6 +1355,24 @@ def c19(res, tier, seed, lib):
                     # ("Could not parse color", C01) - the other messages may be worded freely
                     ok_cls = (cls == want) if want == "color-parse" else (cls is not None)
                     res.check(rc == 1 and ok_cls, "picker-failure-is-a-pastel-error", "cli:colorpicker", "%s %r" % (name, cmd), "rc=%s class=%s msg=%r" % (rc, cls, msg))
+        # the prefix property with `pick` among the colour arguments: the colours before an unreadable literal are
+        # printed (the picked one included), the error names the literal - whether it comes before or after `pick`
+        fake("echo '#ff8800'")
+        env = {"PATH": d + ":/usr/bin:/bin"}
+        for sub in [["color"], ["format", "hex"], ["lighten", "0.1"], ["to-gray"]]:
+            for (cols, good) in [(["red", "pick", "foo"], ["red", "#ff8800"]), (["red", "foo", "pick"], ["red"]), (["pick", "red", "foo", "blue"], ["#ff8800", "red"]),
+                                 (["red", "blue", "pick", "teal", "nope", "pick"], ["red", "blue", "#ff8800", "teal"])]:
+                try:
+                    rc, out, err = run_cli(sub + cols, env=env, timeout=10)
+                    rc0, want, _ = run_cli(sub + good, env=env, timeout=10)
+                except subprocess.TimeoutExpired:
+                    res.fail("terminates", "cli:colorpicker", repr(sub + cols), "no exit within 10 s")
+                    continue
+                res.case("picker-prefix %r" % (sub + cols))
+                cls, msg = classify_stderr(err)
+                bad = [c for c in cols if c not in ("pick",) and c not in good][0]
+                res.check(rc == 1 and rc0 == 0 and out == want and cls == "color-parse" and ("'%s'" % bad) in (msg or ""), "prefix-printed-before-error-with-pick", "cli:colorpicker",
+                          repr(sub + cols), "rc=%s stdout=%r (expected %r) error=%r" % (rc, out[:120], want[:120], msg))
     finally:
         shutil.rmtree(d, ignore_errors=True)
     # an argument that is not valid UTF-8, in every position relative to known and unknown flags
@@ -2191,6 +2251,13 @@ def run(prop, tier, seed, lib):
         res.d["notes"].append("model produced: the pastel binary does not build: " + out[-500:])
         return res.d
     t0 = time.time()
-    RUNNERS[prop](res, tier, seed, lib)
+    try:
+        RUNNERS[prop](res, tier, seed, lib)
+    except Exception:
+        # never leave the check without a verdict: an answer of the implementation that the runner cannot
+        # interpret means the tie between model and code no longer checks (reported as such, with the trace)
+        import traceback
+        res.d["notes"].append("model produced: the CLI runner stopped on an answer of the implementation it could not interpret: "
+                              + " | ".join(traceback.format_exc().strip().split("\n")[-4:]))
     res.d["wall_s"] = round(time.time() - t0, 2)
     return res.d
